@@ -1,6 +1,7 @@
 /-
   C18 — Verifier is transparent and never blocks appends.
 -/
+import RaftWal.Proofs.VerifierDecide
 import RaftWal.Proofs.VerifierReach
 import RaftWal.Generated.Verifier
 namespace RaftWal.C18
@@ -134,5 +135,11 @@ theorem delete_returns_underlying_error : Generated.verifierDeleteReturnsUnderly
 
 /-- and StoreLogs returns the store's error before publishing anything -/
 theorem store_returns_underlying_error : Generated.verifierPublishesAfterStore = true := by decide
+
+/-- a report names a skipped range exactly when it does not start where the previous one ended — the condition translated
+    from `runVerifier` on every run is the model's -/
+theorem skipped_range_condition_from_source (n : Verifier.Node) (r : Verifier.Report) :
+    (n.lastCP > 0 ∧ n.lastCP ≠ r.start) ↔ Generated.verifierNamesSkippedRange n.lastCP r.start = true :=
+  Verifier.skipped_range_eq_source n r
 
 end RaftWal.C18
